@@ -391,6 +391,8 @@ class World:
                   "/sys/block", "/sys/class", "/sys/class/power_supply", "/sys/devices/system/cpu"):
             self.mkdir(d)
         self.set_dev("/dev/tty1", 0x0401)
+        self.set_dev("/dev/ttyS0", 0x0440)
+        self.set_link("/dev/ttyGPS", "/dev/ttyS0")       # (a udev alias: a symbolic link among the tty device nodes)
         self.set_dev("/dev/pts/0", 0x8800)
         # minors >= 256 live in bits 20.. of the device number (and of tty_nr)
         for minor in (1, 4, 255, 256, 1024, 4097):
